@@ -349,17 +349,22 @@ def r6(R):
                 return ('unset-in-loop', False)
         if node.kind == 'test' and lab in ('T', 'F'):
             for e, truth in implied_atoms(node.ast, lab):
+                isnone = None
                 if isinstance(e, ast.Name) and e.id == v:
-                    if truth and val in ('unset', 'unset-in-loop'):
-                        return PRUNE        # it is still None here
-                    if not truth and val == 'set':
-                        return PRUNE        # a tid is never falsy
-                    guard = not truth
+                    isnone = not truth
                 if isinstance(e, ast.Compare) and isinstance(
                         e.left, ast.Name) and e.left.id == v and isinstance(
                             e.comparators[0], ast.Constant) and \
-                        e.comparators[0].value is None:
-                    guard = isinstance(e.ops[0], ast.Is) == truth
+                        e.comparators[0].value is None and isinstance(
+                            e.ops[0], (ast.Is, ast.IsNot)):
+                    isnone = isinstance(e.ops[0], ast.Is) == truth
+                if isnone is None:
+                    continue
+                if not isnone and val in ('unset', 'unset-in-loop'):
+                    return PRUNE        # it is still None here
+                if isnone and val == 'set':
+                    return PRUNE        # a tid is never None / falsy
+                guard = isnone
         if lab != 'e' and node.kind == 'stmt' and isinstance(
                 node.ast, ast.Assign) and any(
                     isinstance(t, ast.Name) and t.id == v
